@@ -74,7 +74,19 @@ def run(chk):
     exe = lib.build_impl("asan")
     chk.prove(PROP_FILE)
     rt, lz = gen_cases(chk)
-    io = lib.run_cases(exe, rt, timeout=3000)
+    # the integer kernels grow their exact-value array by one element per realloc; ASan's realloc always copies, which makes large
+    # all-unpredictable integer arrays quadratic under it (minutes each): those cases run on the uninstrumented build
+    def nelem(c):
+        n = 1
+        for v in c.split(" ")[2].split(","):
+            n *= max(int(v, 16), 1)
+        return n
+    bigi = [i for i, c in enumerate(rt) if nelem(c) > 50000]
+    io = lib.run_cases(exe, [c for i, c in enumerate(rt) if i not in set(bigi)], timeout=3000, jobs=lib.NCPU)
+    if bigi:
+        bo = lib.run_cases(lib.build_impl("plain"), [rt[i] for i in bigi], timeout=3000, jobs=lib.NCPU)
+        for i, o in zip(bigi, bo):
+            io.insert(i, o)
     nfail = 0
     for c, r in zip(rt, io):
         chk.cov["evaluations"] += 1
@@ -106,7 +118,7 @@ def run(chk):
             nfail += 1
             if nfail <= 8:
                 chk.violation("%s on `%s`" % (why, c[:160]), {"case": c, "impl": r[:300], "variant": "asan"})
-    lo = lib.run_cases(exe, lz, timeout=3000)
+    lo = lib.run_cases(exe, lz, timeout=3000, jobs=lib.NCPU)
     for c, r in zip(lz, lo):
         chk.cov["evaluations"] += 1
         d = kv(r)
